@@ -417,8 +417,30 @@ def rule_render_wiring(chk, fb):
                 dollar = True
             if dollar:
                 sites.append(bi)
+        # a mark may also be produced by a small helper / closure `|lock| if *lock { "$" } else { "" }`: the call is the site,
+        # the flag parameter(s) among its arguments decide it
+        via_call = {}
+        for bi, t in fl.calls():
+            cands = [t.get("fn")]
+            if t.get("fn", "").startswith("std::ops::Fn") and t["args"]:
+                cands += [a[1] for a in fl.atoms(t["args"][0]) if a[0] == "cfn"]
+            for c in cands:
+                cb = fb.mir.get(c or "")
+                if cb and c != d and any(st["k"] == "assign" and st["rv"]["k"] == "use" and st["rv"]["op"].get("s") == "$" for bl2 in cb["blocks"] for st in bl2["s"]):
+                    ps = sorted({a[1] for x in t["args"] for a in fl.atoms(x) if a[0] == "arg" and a[1] in bools})
+                    via_call[bi] = ps
+        sites = sorted(set(sites) | set(via_call))
         seen = {"before": 0, "after": 0}
         for n, bi in enumerate(sites):
+            if bi in via_call:
+                params = via_call[bi]
+                pos = "before" if cfg.dominates(bi, C) and bi != C else ("after" if cfg.dominates(C, bi) else "?")
+                want = col_lock if pos == "before" else (row_lock if pos == "after" else None)
+                if pos in seen:
+                    seen[pos] += 1
+                chk.ob(r, "%s:mark-%s-column#%d" % (d, pos, seen.get(pos, 0)), params == [want], where="%s:%s" % (b["file"], b["blocks"][bi]["t"].get("ln")),
+                       detail="`$` %s the column letters comes from a helper called with parameter(s) %s; expected the %s-lock parameter %s" % (pos, [b["locals"][p_].get("n") or p_ for p_ in params], "column" if pos == "before" else "row", b["locals"][want].get("n") if want else "?"))
+                continue
             deps = [x for x in cfg.control_deps_transitive(bi) if b["blocks"][x]["t"]["k"] == "switch"]
             params = sorted({a[1] for x in deps for a in fl.atoms(b["blocks"][x]["t"]["op"]) if a[0] == "arg"})
             pos = "before" if all(cfg.dominates(x, C) for x in deps) and deps else ("after" if all(cfg.dominates(C, x) for x in deps) and deps else "?")
